@@ -751,7 +751,21 @@ func (env *Environment) handleHooks(workflow workflow.Role, trigger string, weig
 
 			// Tasks are handled separately for now, and they must have trigger==await
 			hookTasksToTrigger := hooksForWeight.FilterTasks()
+			if verifhook.Enabled && len(hookTasksToTrigger) > 0 {
+				names := make([]string, len(hookTasksToTrigger))
+				for i, t := range hookTasksToTrigger {
+					names[i] = t.GetParentRolePath()
+				}
+				verifhook.Point("env.hooks.tasks.start", "env", env.id.String(), "trigger", trigger, "weight", int(weight), "tasks", names)
+			}
 			taskErrors = env.runTasksAsHooks(hookTasksToTrigger) // blocking call, timeouts in executor
+			if verifhook.Enabled && len(hookTasksToTrigger) > 0 {
+				names := make([]string, len(hookTasksToTrigger))
+				for i, t := range hookTasksToTrigger {
+					names[i] = t.GetParentRolePath()
+				}
+				verifhook.Point("env.hooks.tasks.done", "env", env.id.String(), "trigger", trigger, "weight", int(weight), "tasks", names, "errors", len(taskErrors))
+			}
 		}
 
 		// PHASE 4: collect any errors
